@@ -763,6 +763,51 @@ example :
     (refs (copyObj false ho.1 ho.2).2).any (fun a => (refs ho.2).contains a) = true := by
   decide +kernel
 
+open StoreCopy in
+/-- **Copies after any history.**  One live object; copies (shallow or deep, in any mix) are taken at any
+    time and any buffer of the heap — of the source, of any earlier copy — is overwritten in place in
+    between.  The copy taken NEXT is observably equal to the source as it is at that moment, taking it
+    leaves the source and every earlier copy as they are, and a deep copy refers to no buffer of the source
+    nor of any copy taken before (so it is never an earlier copy handed out again). -/
+theorem copy_after_any_history (s : CState) (hs : CInv s) (ops : List COp) (deep : Bool) :
+    view (copyObj deep (runC s ops).heap (runC s ops).src).1 (copyObj deep (runC s ops).heap (runC s ops).src).2
+      = view (runC s ops).heap (runC s ops).src ∧
+    view (copyObj deep (runC s ops).heap (runC s ops).src).1 (runC s ops).src
+      = view (runC s ops).heap (runC s ops).src ∧
+    (∀ c ∈ (runC s ops).copies,
+      view (copyObj deep (runC s ops).heap (runC s ops).src).1 c = view (runC s ops).heap c) ∧
+    (deep = true → ∀ a ∈ refs (copyObj deep (runC s ops).heap (runC s ops).src).2,
+      a ∉ refs (runC s ops).src ∧ ∀ c ∈ (runC s ops).copies, a ∉ refs c) := by
+  obtain ⟨h1, h2⟩ := CInv_run ops s hs
+  obtain ⟨c1, c2, c3, _⟩ := copyObj_spec deep (runC s ops).src (runC s ops).heap h1
+  refine ⟨c2, view_prefix c1 _ h1, fun c hc => view_prefix c1 c (h2 c hc), ?_⟩
+  intro hd a ha
+  have hge : (runC s ops).heap.length ≤ a := c3 hd a ha
+  refine ⟨fun hm => absurd (h1 a hm) (Nat.not_lt.mpr hge), fun c hc hm => absurd (h2 c hc a hm) (Nat.not_lt.mpr hge)⟩
+
+open StoreCopy in
+/-- … and every deep copy of the history stays what it was when it was taken, whatever is written afterwards to
+    buffers it does not own: a write to a buffer of the source (or of another deep copy) never shows in it. -/
+theorem copy_history_write_elsewhere (s : CState) (a : Addr) (d : DS) (c : HObj) (hc : a ∉ refs c) :
+    view (stepC s (.write a d)).heap c = view s.heap c := by
+  simpa [stepC] using view_poke (h := s.heap) (a := a) (d := d) c hc
+
+open StoreCopy in
+/-- non-vacuity, and the history of the method form called twice: deep copy, the copy's matrix overwritten, the
+    source's matrix overwritten, deep copy again — the second copy equals the source as it is NOW (not the first
+    copy), and the first copy kept its own contents. -/
+example :
+    let d (x : Rat) : DS := ⟨.f64, [1, 1], [], [x], []⟩
+    let o : Obj := Ex.mkObj cmatSchema [("mat", .data (d 3)), ("taxa", Ex.strs ["tå"])]
+    let ho := allocObj [] o
+    let s0 : CState := ⟨ho.1, ho.2, []⟩
+    let s1 := runC s0 [.copy true]
+    let s2 := runC s1 [.write 2 (d 7), .write 0 (d 5), .copy true]
+    (∀ a ∈ refs s0.src, a < s0.heap.length) ∧ (s1.copies.head!.lookup "mat") = some (.ref 2) ∧
+    s2.copies.map (fun c => viewV s2.heap ((c.lookup "mat").getD .none)) = [.data (d 7), .data (d 5)] ∧
+    viewV s2.heap ((s2.src.lookup "mat").getD .none) = .data (d 5) := by
+  decide +kernel
+
 /-! ## copies of object graphs: `copy.deepcopy` inside the model -/
 
 open StoreGraph in
